@@ -418,6 +418,30 @@ pub fn monitor(made: &Made, l: &mut Local) {
                 }
             }
         }
+        // H5: "and asks no more": once the search has ended (timeout, stop or shutdown) no A/AAAA question for the
+        // name leaves any more and nothing further arrives on its channel - until a new search for the name starts
+        if t_end < made.horizon {
+            let lname = given.to_lowercase();
+            let next_same = made.searches.iter().filter(|(c, g, ts, _)| *c != *chan && g.to_lowercase() == lname && *ts >= t_end).map(|(_, _, ts, _)| *ts).min().unwrap_or(made.horizon);
+            let overlapping = made.searches.iter().any(|(c, g, ts, _)| *c != *chan && g.to_lowercase() == lname && *ts < t_end);
+            if !overlapping && t_end + sl + 1 < next_same {
+                l.act("H5");
+                let name = scen::wire_name(given);
+                let how = if api_end.is_some_and(|t| t <= t_end) { "stop" } else { "timeout" };
+                let case = if given.chars().any(|c| c.is_ascii_uppercase()) { "mixed-case" } else { "lower-case" };
+                if let Some(tx) = txs.iter().find(|tx| tx.t > t_end + sl && tx.t < next_same && tx.msg.is_query() && tx.msg.questions.iter().any(|q| (q.qtype == wire::T_A || q.qtype == wire::T_AAAA) && wire::names_eq_nocase(&q.name, &name))) {
+                    l.violate(
+                        Violation::new("H5", format!("H5/query-after-the-search-ended/{how}/{case}"), format!("resolve_hostname({given}) ended at +{} ms ({how}); an address question for it still left {} ms later", t_end - EPOCH, tx.t - t_end))
+                            .with(wit(tx.t)),
+                    );
+                } else if let Some((t, o)) = obs.iter().find(|(t, o)| *t > t_end + sl && !matches!(o, Obs::Closed)) {
+                    l.violate(
+                        Violation::new("H5", format!("H5/event-after-the-search-ended/{how}/{case}"), format!("resolve_hostname({given}) ended at +{} ms ({how}); its channel still received {:?} {} ms later", t_end - EPOCH, o, t - t_end))
+                            .with(wit(*t)),
+                    );
+                }
+            }
+        }
     }
 }
 
@@ -448,7 +472,7 @@ pub fn run(report: &Report, tier: &Tier) {
          observed 150 s past the last call; lazy and eager stepping; distinct by (stepping, operation kinds, topology)",
     );
     report.assume("each address record keeps one owner spelling and one TTL; late wake-ups (oversleep) are C11's quantifier, not C17's");
-    for r in ["H1", "H1-complete", "H1-trigger", "H2", "H2-complete", "H3", "H3-refresh", "H4"] {
+    for r in ["H1", "H1-complete", "H1-trigger", "H2", "H2-complete", "H3", "H3-refresh", "H4", "H5"] {
         report.floor(r, 30);
     }
     let seed = report.seed;
